@@ -18,6 +18,7 @@
  *   ACCESS                          status, objval, x, pi, slack, rc
  *   TABLEAU                         basis order, every row of B^-1, every tableau row
  *   PIVROW <k> <r>*k | PIVCOL <k> <c>*k    mpq_QSopt_pivotin_row / _col
+ *   CHG coef i j v | obj j v | rhs i v | sense i s | bound j L|U|B v | objsense MIN|MAX | range i v   edits of the current object
  *  component level (mpq_ILLfactor*):
  *   FNEW <n> [<param> <val>]*       fresh factor_work of dimension n (iparams: 1 MAX_K, 2 P, 3 ETAMAX, 17 DENSE_MIN;
  *                                   d<code> <rational> = dparam, e.g. d11 ER_SPACE_MUL, d8 UC_SPACE_MUL, d16 DENSE_FRACT)
@@ -380,6 +381,23 @@ int main (int argc, char **argv)
 		{
 			qsx_dump_ilp (stdout, P);
 			if (qsx_dump_user (stdout, P)) printf ("ULP ERR\n");
+		}
+		else if (!strcmp (op, "CHG"))
+		{
+			/* CHG coef i j v | obj j v | rhs i v | sense i s | bound j L|U|B v | objsense MIN|MAX | range i v
+			 * (edits on the current object: verdict calls after them must answer for the edited problem) */
+			int rv = -99;
+			mpq_t v;
+			mpq_init (v);
+			if (!strcmp (qsx_tok[1], "coef")) { qsx_parse_q (qsx_tok[4], v); rv = mpq_QSchange_coef (P, atoi (qsx_tok[2]), atoi (qsx_tok[3]), v); }
+			else if (!strcmp (qsx_tok[1], "obj")) { qsx_parse_q (qsx_tok[3], v); rv = mpq_QSchange_objcoef (P, atoi (qsx_tok[2]), v); }
+			else if (!strcmp (qsx_tok[1], "rhs")) { qsx_parse_q (qsx_tok[3], v); rv = mpq_QSchange_rhscoef (P, atoi (qsx_tok[2]), v); }
+			else if (!strcmp (qsx_tok[1], "range")) { qsx_parse_q (qsx_tok[3], v); rv = mpq_QSchange_range (P, atoi (qsx_tok[2]), v); }
+			else if (!strcmp (qsx_tok[1], "sense")) rv = mpq_QSchange_sense (P, atoi (qsx_tok[2]), qsx_tok[3][0]);
+			else if (!strcmp (qsx_tok[1], "bound")) { qsx_parse_q (qsx_tok[4], v); rv = mpq_QSchange_bound (P, atoi (qsx_tok[2]), qsx_tok[3][0], v); }
+			else if (!strcmp (qsx_tok[1], "objsense")) rv = mpq_QSchange_objsense (P, strcmp (qsx_tok[2], "MAX") ? QS_MIN : QS_MAX);
+			printf ("CHG %d\n", rv);
+			mpq_clear (v);
 		}
 		else if (!strcmp (op, "BOPT") || !strcmp (op, "BDUAL") || !strcmp (op, "BDUALP") || !strcmp (op, "VERIFY"))
 		{
